@@ -9,6 +9,8 @@ import (
 	"math/rand"
 	"net"
 	"os"
+	"sort"
+	"strings"
 	"syscall"
 
 	"github.com/cloudwego/gopkg/bufiox"
@@ -508,8 +510,98 @@ func genRdCases(c *Ctx) []json.RawMessage {
 	return out
 }
 
+// tlcHistories runs a Gen_* module (a model whose constraint prints a history of inputs for every generated
+// transition) and returns the distinct printed histories as nested integer tuples.
+func tlcHistories(c *Ctx, module, cfg string) [][]interface{} {
+	res := c.MC(module, cfg, 8)
+	seen := map[string]bool{}
+	var out [][]interface{}
+	for _, p := range res.Prints {
+		if !strings.HasPrefix(p, "<<") || seen[p] {
+			continue
+		}
+		seen[p] = true
+		var v []interface{}
+		js := strings.NewReplacer("<<", "[", ">>", "]").Replace(p)
+		if err := json.Unmarshal([]byte(js), &v); err != nil {
+			c.Infra("cannot parse a history printed by %s: %v: %s", module, err, p)
+			return nil
+		}
+		out = append(out, v)
+	}
+	return out
+}
+
+func tupInts(v interface{}) []int {
+	a, _ := v.([]interface{})
+	out := make([]int, 0, len(a))
+	for _, x := range a {
+		f, _ := x.(float64)
+		out = append(out, int(f))
+	}
+	return out
+}
+
+// tlcRdCases: the maximal histories of Gen_BufReader (those no other printed history extends) as cases.
+func tlcRdCases(c *Ctx) []json.RawMessage {
+	hs := tlcHistories(c, "Gen_BufReader.tla", "Gen_BufReader_"+c.Tier+".cfg")
+	type key struct{ init, ops, chunks string }
+	ks := map[key][]interface{}{}
+	str := func(v interface{}) string { b, _ := json.Marshal(v); return string(b) }
+	for _, h := range hs {
+		if len(h) != 3 {
+			continue
+		}
+		ks[key{str(h[0]), str(h[1]), str(h[2])}] = h
+	}
+	ext := map[key]bool{}
+	for _, h := range ks {
+		ops, _ := h[1].([]interface{})
+		ch, _ := h[2].([]interface{})
+		if len(ops) > 0 {
+			ext[key{str(h[0]), str(ops[:len(ops)-1]), str(h[2])}] = true
+		}
+		if len(ch) > 0 {
+			ext[key{str(h[0]), str(h[1]), str(ch[:len(ch)-1])}] = true
+		}
+	}
+	var out []json.RawMessage
+	opn := []string{"", "next", "peek", "skip", "readbinary", "release"}
+	seed := 7000
+	for k, h := range ks {
+		if ext[k] {
+			continue
+		}
+		in := tupInts(h[0])
+		if len(in) != 5 {
+			continue
+		}
+		seed++
+		cs := RdCase{Fl: "io", S: in[1], Fk: "EOF", Wd: in[3] == 1, Seed: seed, Chunks: tupInts(h[2])}
+		if in[0] == 1 {
+			cs.Fl, cs.Cap = "bytes", in[4]
+		}
+		if in[2] == 2 {
+			cs.Fk = "ERR"
+		}
+		if len(cs.Chunks) == 0 {
+			cs.Chunks = []int{-1}
+		}
+		for _, o := range h[1].([]interface{}) {
+			t := tupInts(o)
+			if len(t) != 2 || t[0] < 1 || t[0] > 5 {
+				continue
+			}
+			cs.Ops = append(cs.Ops, RdOp{opn[t[0]], t[1]})
+		}
+		out = append(out, mustJSON(cs))
+	}
+	sort.Slice(out, func(i, j int) bool { return string(out[i]) < string(out[j]) })
+	return out
+}
+
 func checkC04(c *Ctx) {
-	c.rule = "MC: every behaviour of ReaderImpl (real constants) within the cfg bounds is accepted by ReaderAbs. TRACE: one case = (reader flavour, stream, source fault/fragmentation policy, operation history); bounded-exhaustive histories over a boundary-valued alphabet x source behaviours (incl. the well-known error values of real connections: EINTR, EAGAIN, deadline, closed, cancelled, bare and wrapped, with and without data) plus seeded random histories; every case is executed on the real bufiox reader and every event is judged by TLC against ReaderAbs (violations) and ReaderImpl (drift)."
+	c.rule = "MC: every behaviour of ReaderImpl (real constants) within the cfg bounds is accepted by ReaderAbs and is a behaviour of the integer core (RefinesCore). APALACHE: the core's invariants (no loss / duplication inside the buffer, cursor = base + ri, ReadLen, room while reading, the C04 contract on every completed call) are inductive for operands, streams, chunkings and capacities of any size. GEN: every transition of the bounded model is replayed on the real reader (Gen_BufReader). TRACE: one case = (reader flavour, stream, source fault/fragmentation policy, operation history); bounded-exhaustive histories over a boundary-valued alphabet x source behaviours (incl. the well-known error values of real connections: EINTR, EAGAIN, deadline, closed, cancelled, bare and wrapped, with and without data) plus seeded random histories; every case is executed on the real bufiox reader and every event is judged by TLC against ReaderAbs (violations) and ReaderImpl (drift)."
 	if c.Thorough() {
 		c.MC("MC_BufReader.tla", "MC_BufReader_thorough.cfg", 12)
 	} else {
@@ -518,7 +610,23 @@ func checkC04(c *Ctx) {
 	// liveness on the model: under weak fairness of the source every operation terminates (productive chunks,
 	// empty reads forever, failure)
 	c.MC("MC_BufReader.tla", "MC_BufReader_live.cfg", 4)
+	// unbounded sizes: the integer core of the reader (Ind_BufReader.tla; MC_BufReader checks RefinesCore = every step of the
+	// detailed model is a step of the core) keeps the C04 invariants and the contract for operands, streams, chunkings
+	// and capacities of ANY size, any buffer size >= 1 and any patience >= 2 empty reads (Apalache, inductive invariant)
+	c.Apalache("Ind_BufReader.tla", "base: Init => IndInv (any DefaultBufSize >= 1, MaxEmpty >= 2)", false, "--cinit=ConstInitAny", "--init=Init", "--next=Next", "--inv=IndInv", "--length=0")
+	c.Apalache("Ind_BufReader.tla", "step: IndInv /\\ Next => IndInv'", false, "--cinit=ConstInitAny", "--init=IndInit", "--next=Next", "--inv=IndInv", "--length=1")
+	c.Apalache("Ind_BufReader.tla", "negative control: growth sized for n instead of ri + n breaks the step", true, "--cinit=ConstInitNeg", "--init=IndInit", "--next=Next", "--inv=IndInv", "--length=1")
+	if c.Thorough() {
+		for _, pr := range []string{"ProbeNeverReading", "ProbeNeverNoProg", "ProbeNeverShort"} {
+			c.Apalache("Ind_BufReader.tla", "non-vacuity probe "+pr, true, "--cinit=ConstInit", "--init=IndInit", "--next=Next", "--inv="+pr, "--length=0")
+		}
+	}
 	cases := genRdCases(c)
+	// TLC as generator: every transition of the bounded ReaderImpl + source model becomes a scripted case for the real
+	// reader (spec/Gen_BufReader.tla); the recorded executions are validated with the others
+	gen := tlcRdCases(c)
+	c.Extra("tlc_generated_cases", len(gen))
+	cases = append(cases, gen...)
 	c.TraceCheck(famRd, cases)
 	c.Assume("the scripted source and the pattern recogniser (harness/pat.go, c04.go) are correct; TLC evaluates the contract")
 }
